@@ -45,6 +45,7 @@ type c12watcher struct {
 	prefix string
 	cb     func(key string, value []byte, deleted bool)
 	q      []*c12event
+	hold   *c12event // held back: delivered after the next notification (reordering)
 	busy   bool
 	closed bool
 }
@@ -271,7 +272,7 @@ func (st *c12store) dropWatchers(h *c12handle) {
 	for _, w := range st.watchers {
 		if w.h == h {
 			w.closed = true
-			w.q = nil
+			w.q, w.hold = nil, nil
 			continue
 		}
 		st.watchers[k] = w
@@ -309,17 +310,20 @@ func (st *c12store) notify(from *c12handle, key string, value []byte, deleted bo
 			s.Fault("store.watch.dup")
 			w.q = append(w.q, ev)
 		case 3:
-			if n := len(w.q); n > 0 {
-				// overtakes the notification queued before it
-				w.q = append(w.q, nil)
-				copy(w.q[n:], w.q[n-1:n])
-				w.q[n-1] = ev
-				s.Fault("store.watch.reorder")
-			} else {
-				w.q = append(w.q, ev)
+			// overtaken by the next notification for this watcher
+			if w.hold == nil {
+				w.hold = ev
+				continue
 			}
+			w.q = append(w.q, ev)
 		default:
 			w.q = append(w.q, ev)
+		}
+		// a held-back notification goes out right behind the one that overtook it
+		if w.hold != nil && w.hold != ev && len(w.q) > 0 && w.q[len(w.q)-1].seq > w.hold.seq {
+			w.q = append(w.q, w.hold)
+			w.hold = nil
+			s.Fault("store.watch.reorder")
 		}
 	}
 }
@@ -361,11 +365,21 @@ func (st *c12store) settled() bool {
 		if w.closed || w.h.tok.Dead() {
 			continue
 		}
-		if len(w.q) > 0 || w.busy {
+		if len(w.q) > 0 || w.busy || w.hold != nil {
 			return false
 		}
 	}
 	return true
+}
+
+// releaseHolds delivers held-back notifications that nothing overtook.
+func (st *c12store) releaseHolds() {
+	for _, w := range st.watchers {
+		if w.hold != nil {
+			w.q = append(w.q, w.hold)
+			w.hold = nil
+		}
+	}
 }
 
 func (st *c12store) closeAll() {
